@@ -38,7 +38,14 @@ type Src struct {
 	InitPanics bool
 	InitArgs   int    // number of Int parameters of the initializer
 	XInit      string // tag() right after init without arguments ("none": no field x)
+	// Dep: the contract imports the contract Dep of account DepAccount and calls its
+	// version() in dep(); DepInit: also in its initializer (x = Dep.version()).
+	Dep     string
+	DepInit bool
 }
+
+// DepAccount is the account importer sources import from.
+const DepAccount = 1
 
 func (s Src) HasEnum() bool { return s.Enum != nil }
 
@@ -62,11 +69,16 @@ type spec struct {
 	extraFn    bool
 	initPanics bool
 	initArgs   int
+	dep        string
+	depInit    bool
 }
 
 func build(name string, sp spec) Src {
 	var b strings.Builder
 	var fields []Field
+	if sp.dep != "" {
+		fmt.Fprintf(&b, "import %s from 0x%x\n", sp.dep, DepAccount)
+	}
 	fmt.Fprintf(&b, "access(all) contract %s {\n", name)
 	initBody := ""
 	xinit := "none"
@@ -78,6 +90,9 @@ func build(name string, sp spec) Src {
 		if sp.initArgs > 0 {
 			initBody += "self.x = v; "
 			xinit = "?"
+		} else if sp.depInit {
+			initBody += fmt.Sprintf("self.x = %s.version(); ", sp.dep)
+			xinit = "dep"
 		} else {
 			initBody += fmt.Sprintf("self.x = %d; ", sp.version)
 			xinit = strconv.Itoa(sp.version)
@@ -114,6 +129,9 @@ func build(name string, sp spec) Src {
 	if sp.extraFn {
 		b.WriteString("    access(all) fun extra(): Int { return 0 }\n")
 	}
+	if sp.dep != "" {
+		fmt.Fprintf(&b, "    access(all) view fun dep(): Int { return %s.version() }\n", sp.dep)
+	}
 	if sp.initPanics {
 		initBody += `; panic("init-panic")`
 	}
@@ -130,7 +148,7 @@ func build(name string, sp spec) Src {
 		nested["E"] = "enum"
 	}
 	return Src{Label: sp.label, Code: b.String(), Valid: true, Version: sp.version, Fields: fields, Nested: nested,
-		Enum: sp.enum, InitPanics: sp.initPanics, InitArgs: sp.initArgs, XInit: xinit}
+		Enum: sp.enum, InitPanics: sp.initPanics, InitArgs: sp.initArgs, XInit: xinit, Dep: sp.dep, DepInit: sp.depInit}
 }
 
 // Source labels (stable: used in class histograms).
@@ -153,6 +171,8 @@ const (
 	SNoDecl
 	SInitPanics
 	SInitArg
+	SImporter
+	SImporterInit
 	numSources
 )
 
@@ -186,6 +206,10 @@ func Pool(name string) []Src {
 		Code: "// nothing is declared here\n"}
 	p[SInitPanics] = build(name, spec{label: "init-panics", version: 14, xType: "Int", initPanics: true})
 	p[SInitArg] = build(name, spec{label: "init-arg", version: 15, xType: "Int", initArgs: 1})
+	// A imports B, B imports C (both from DepAccount); C's slots are plain contracts
+	dep := map[string]string{"A": "B", "B": "C"}[name]
+	p[SImporter] = build(name, spec{label: "importer", version: 18, xType: "Int", dep: dep})
+	p[SImporterInit] = build(name, spec{label: "importer-init", version: 19, xType: "Int", dep: dep, depInit: dep != ""})
 	for i := range p {
 		p[i].ID = i
 	}
@@ -282,6 +306,45 @@ type ContractModel struct {
 	Names []string
 	Pools map[string][]Src
 	State map[CKey]*Deployed
+	// DepsFirst orders aliased imports so that a contract is imported before the
+	// contracts importing it (avoids known finding FK4); OnReorder is called for
+	// every script/transaction whose natural import order would have hit it.
+	DepsFirst bool
+	OnReorder func()
+}
+
+// importLines renders aliased imports of the given slots (natural order: by
+// account, then name), reordered dependencies-first when DepsFirst is set.
+func (m *ContractModel) importLines(keys []CKey, code map[CKey]int) string {
+	trips := false
+	seenImporterOf := map[CKey]bool{}
+	for _, k := range keys {
+		if seenImporterOf[k] {
+			trips = true
+		}
+		if id, ok := code[k]; ok {
+			if s := m.src(k, id); s.Dep != "" {
+				seenImporterOf[CKey{DepAccount, s.Dep}] = true
+				// transitively
+				dk := CKey{DepAccount, s.Dep}
+				if id2, ok2 := code[dk]; ok2 && m.src(dk, id2).Dep != "" {
+					seenImporterOf[CKey{DepAccount, m.src(dk, id2).Dep}] = true
+				}
+			}
+		}
+	}
+	if trips && m.DepsFirst {
+		if m.OnReorder != nil {
+			m.OnReorder()
+		}
+		keys = append([]CKey(nil), keys...)
+		sort.SliceStable(keys, func(i, j int) bool { return keys[i].Name > keys[j].Name })
+	}
+	var b strings.Builder
+	for _, k := range keys {
+		fmt.Fprintf(&b, "import %s as %s from 0x%x\n", k.Name, alias(k), k.Acct)
+	}
+	return b.String()
 }
 
 func NewContractModel(accts []int, names []string) *ContractModel {
@@ -303,6 +366,32 @@ func (m *ContractModel) Keys() []CKey {
 }
 
 func (m *ContractModel) src(k CKey, id int) Src { return m.Pools[k.Name][id] }
+
+// healthy: the slot holds a contract (not an interface) whose imports resolve to
+// healthy contracts, i.e. a program importing it checks.
+func (m *ContractModel) healthy(k CKey, code map[CKey]int) bool {
+	id, ok := code[k]
+	if !ok {
+		return false
+	}
+	s := m.src(k, id)
+	if s.Iface {
+		return false
+	}
+	return s.Dep == "" || m.healthy(CKey{DepAccount, s.Dep}, code)
+}
+
+// deployable: the source checks in the current state of its dependency.
+func (m *ContractModel) deployable(k CKey, s Src, code map[CKey]int) bool {
+	return s.Valid && (s.Dep == "" || m.healthy(CKey{DepAccount, s.Dep}, code))
+}
+
+func (m *ContractModel) invalidToken(s Src) string {
+	if !s.Valid {
+		return s.Invalid
+	}
+	return "cannot deploy invalid contract" // unresolved import
+}
 
 func CodeHash(code string) string {
 	h := sha3.Sum256([]byte(code))
@@ -336,10 +425,9 @@ func (m *ContractModel) Apply(tx CTx) CExpect {
 	// calls need an import that resolves when the transaction is checked
 	for _, a := range tx.Actions {
 		switch a.Op {
-		case "version", "tag", "bump":
+		case "version", "tag", "bump", "dep":
 			k := CKey{a.Acct, a.Name}
-			id, ok := start[k]
-			if !ok || m.src(k, id).Iface {
+			if !m.healthy(k, start) || (a.Op == "dep" && m.src(k, start[k]).Dep == "") {
 				exp.Fails, exp.FailAt = true, -1
 				return exp
 			}
@@ -360,8 +448,8 @@ func (m *ContractModel) Apply(tx CTx) CExpect {
 			return "cannot update non-existing contract"
 		}
 		s := m.src(k, a.Src)
-		if !s.Valid {
-			return s.Invalid
+		if !m.deployable(k, s, code) {
+			return m.invalidToken(s)
 		}
 		if !UpdateAccepted(m.src(k, cur), s) {
 			return "type:ContractUpdateError"
@@ -383,8 +471,8 @@ func (m *ContractModel) Apply(tx CTx) CExpect {
 				return fail(i, "cannot overwrite existing contract")
 			}
 			s := m.src(k, a.Src)
-			if !s.Valid {
-				return fail(i, s.Invalid)
+			if !m.deployable(k, s, code) {
+				return fail(i, m.invalidToken(s))
 			}
 			var dep *Deployed
 			if !s.Iface {
@@ -407,6 +495,15 @@ func (m *ContractModel) Apply(tx CTx) CExpect {
 					dep.X = s.XInit
 					if a.Arg == "int" {
 						dep.X = "77"
+					}
+					if s.DepInit {
+						// the initializer calls the dependency (the generator only does this
+						// when the dependency was not touched in this transaction)
+						dk := CKey{DepAccount, s.Dep}
+						dep.X = strconv.Itoa(m.src(dk, code[dk]).Version)
+						if pendingAdd[dk] != nil || code[dk] != start[dk] {
+							exp.Flags["importer-init-over-dependency-changed-same-tx"] = true
+						}
 					}
 				}
 			} else {
@@ -464,6 +561,10 @@ func (m *ContractModel) Apply(tx CTx) CExpect {
 		case "borrow":
 			cur, ok := code[k]
 			_, hasVal := nval[k]
+			if ok && m.src(k, cur).Dep != "" && !m.healthy(k, code) {
+				// loading the program of a contract whose import no longer resolves fails
+				return fail(i, "")
+			}
 			// the value of a contract added in this transaction is written at commit only
 			res := ok && !m.src(k, cur).Iface && hasVal && pendingAdd[k] == nil
 			if ok && pendingAdd[k] != nil && pendingAdd[k].HasValue {
@@ -511,6 +612,9 @@ func (m *ContractModel) Apply(tx CTx) CExpect {
 		case "bump":
 			nval[k]++
 			logf("bump %d", nval[k])
+		case "dep":
+			dk := CKey{DepAccount, m.src(k, start[k]).Dep}
+			logf("dep %d", m.src(dk, start[dk]).Version)
 		default:
 			panic("capgen: unknown contract op " + a.Op)
 		}
@@ -550,16 +654,22 @@ func alias(k CKey) string { return fmt.Sprintf("%s_%d", k.Name, k.Acct) }
 func (m *ContractModel) Source(tx CTx) string {
 	var b strings.Builder
 	imported := map[CKey]bool{}
+	var importKeys []CKey
 	for _, a := range tx.Actions {
 		switch a.Op {
-		case "version", "tag", "bump":
+		case "version", "tag", "bump", "dep":
 			k := CKey{a.Acct, a.Name}
 			if !imported[k] {
 				imported[k] = true
-				fmt.Fprintf(&b, "import %s as %s from 0x%x\n", k.Name, alias(k), k.Acct)
+				importKeys = append(importKeys, k)
 			}
 		}
 	}
+	committedNow := map[CKey]int{}
+	for k, d := range m.State {
+		committedNow[k] = d.Src
+	}
+	b.WriteString(m.importLines(importKeys, committedNow))
 	b.WriteString("transaction {\n  prepare(")
 	for i, a := range m.Accts {
 		if i > 0 {
@@ -608,6 +718,8 @@ func (m *ContractModel) Source(tx CTx) string {
 			fmt.Fprintf(&b, "    log(\"tag \".concat(%s.tag()))\n", alias(k))
 		case "bump":
 			fmt.Fprintf(&b, "    log(\"bump \".concat(%s.bump().toString()))\n", alias(k))
+		case "dep":
+			fmt.Fprintf(&b, "    log(\"dep \".concat(%s.dep().toString()))\n", alias(k))
 		}
 	}
 	if tx.Abort {
@@ -620,8 +732,13 @@ func (m *ContractModel) Source(tx CTx) string {
 // VerifyScript renders the script that reads back the complete committed state,
 // and the lines it must return according to the model.
 func (m *ContractModel) VerifyScript() (string, []string) {
-	var imp, body strings.Builder
+	var body strings.Builder
+	var importKeys []CKey
 	var want []string
+	committed := map[CKey]int{}
+	for k, d := range m.State {
+		committed[k] = d.Src
+	}
 	for _, a := range m.Accts {
 		fmt.Fprintf(&body, "  let a%d = getAccount(0x%x)\n", a, a)
 		var ns []string
@@ -637,17 +754,25 @@ func (m *ContractModel) VerifyScript() (string, []string) {
 			k := CKey{a, n}
 			d := m.State[k]
 			fmt.Fprintf(&body, "  out.append(\"get %s \".concat(codeOf(a%d.contracts.get(name: %q))))\n", k, a, n)
-			fmt.Fprintf(&body, "  out.append(\"borrow %s \".concat(a%d.contracts.borrow<&AnyStruct>(name: %q) != nil ? \"true\" : \"false\"))\n", k, a, n)
+			// a contract whose import no longer resolves cannot be loaded: neither borrowed nor imported
+			broken := d != nil && !m.src(k, d.Src).Iface && !m.healthy(k, committed)
+			if !broken {
+				fmt.Fprintf(&body, "  out.append(\"borrow %s \".concat(a%d.contracts.borrow<&AnyStruct>(name: %q) != nil ? \"true\" : \"false\"))\n", k, a, n)
+			}
 			if d == nil {
 				want = append(want, fmt.Sprintf("get %s nil", k), fmt.Sprintf("borrow %s false", k))
 				continue
 			}
 			s := m.src(k, d.Src)
-			want = append(want, fmt.Sprintf("get %s %s", k, s.Code), fmt.Sprintf("borrow %s %t", k, d.HasValue))
+			want = append(want, fmt.Sprintf("get %s %s", k, s.Code))
+			if broken {
+				continue
+			}
+			want = append(want, fmt.Sprintf("borrow %s %t", k, d.HasValue))
 			if s.Iface {
 				continue
 			}
-			fmt.Fprintf(&imp, "import %s as %s from 0x%x\n", n, alias(k), a)
+			importKeys = append(importKeys, k)
 			fmt.Fprintf(&body, "  out.append(\"state %s \".concat(%s.version().toString()).concat(\" \").concat(%s.tag()).concat(\" \").concat(%s.n.toString()))\n",
 				k, alias(k), alias(k), alias(k))
 			tag := "none"
@@ -655,9 +780,14 @@ func (m *ContractModel) VerifyScript() (string, []string) {
 				tag = d.X
 			}
 			want = append(want, fmt.Sprintf("state %s %d %s %d", k, s.Version, tag, d.N))
+			if s.Dep != "" {
+				dk := CKey{DepAccount, s.Dep}
+				fmt.Fprintf(&body, "  out.append(\"dep %s \".concat(%s.dep().toString()))\n", k, alias(k))
+				want = append(want, fmt.Sprintf("dep %s %d", k, m.src(dk, committed[dk]).Version))
+			}
 		}
 	}
-	src := imp.String() +
+	src := m.importLines(importKeys, committed) +
 		"access(all) fun codeOf(_ c: DeployedContract?): String {\n  if let d = c { return String.fromUTF8(d.code) ?? \"<bad utf8>\" }\n  return \"nil\"\n}\n" +
 		"access(all) fun joined(_ names: &[String]): String {\n  var s = \"\"\n  for n in names { s = s.concat(s == \"\" ? \"\" : \",\").concat(n) }\n  return s\n}\n" +
 		"access(all) fun main(): [String] {\n  let out: [String] = []\n" + body.String() + "  return out\n}\n"
@@ -673,6 +803,7 @@ type ContractGenOptions struct {
 	// called for each suppressed action.
 	//   FK1: `borrow` of a contract added earlier in the same transaction
 	//   FK2: `remove` of a contract (not interface) added earlier in the same transaction
+	//   FK4: (VM) an aliased import after the import of a contract that imports the same contract
 	Avoid   map[string]bool
 	OnAvoid func(id string)
 }
@@ -694,7 +825,7 @@ type ContractHistory struct {
 	Steps []ContractStep
 }
 
-var validIDs = []int{SV1, SCompatFn, SCompatNested, SFieldAdded, SFieldRetyped, SFieldRemoved, SEnum, SEnumMore, SEnumReordered, SInterface, SInterface2, SInitPanics}
+var validIDs = []int{SV1, SCompatFn, SCompatNested, SFieldAdded, SFieldRetyped, SFieldRemoved, SEnum, SEnumMore, SEnumReordered, SInterface, SInterface2, SImporter, SImporterInit, SInitPanics}
 
 // genGoals steers the generator towards the ingredients of a non-trivial history.
 type genGoals struct {
@@ -859,12 +990,11 @@ func (m *ContractModel) genAction(c Chooser, tx *CTx, shadow map[CKey]int, start
 		return CAction{Op: "names", Acct: acct}, true
 	default: // calls
 		opn := []string{"version", "version", "tag", "bump", "bump"}[c.Intn("call", 5)]
-		id, ok := start[k]
-		if !(ok && !m.src(k, id).Iface) && !Chance(c, "badimport", 1, 12) {
+		if !m.healthy(k, start) && !Chance(c, "badimport", 1, 12) {
 			// look for a callable contract
 			var callable []CKey
 			for _, kk := range m.Keys() {
-				if id2, ok2 := start[kk]; ok2 && !m.src(kk, id2).Iface {
+				if m.healthy(kk, start) {
 					callable = append(callable, kk)
 				}
 			}
@@ -873,9 +1003,42 @@ func (m *ContractModel) genAction(c Chooser, tx *CTx, shadow map[CKey]int, start
 			}
 			kk := callable[c.Intn("callable", len(callable))]
 			acct, name = kk.Acct, kk.Name
+			k = kk
+		}
+		if id, ok := start[k]; ok && m.src(k, id).Dep != "" && m.healthy(k, start) && Chance(c, "depcall", 1, 2) {
+			opn = "dep"
 		}
 		return CAction{Op: opn, Acct: acct, Name: name}, true
 	}
+}
+
+// orderDependent: the outcome of the action would depend on which version of a
+// dependency's program the transaction happened to load first (or it trips over
+// FK1): deploying an importer after its dependency was touched in the same
+// transaction, or loading a contract whose import no longer resolves.
+func (m *ContractModel) orderDependent(a CAction, shadow map[CKey]int, start map[CKey]int, addedHere map[CKey]bool, o ContractGenOptions) bool {
+	k := CKey{a.Acct, a.Name}
+	switch a.Op {
+	case "add", "update", "tryUpdate":
+		s := m.src(k, a.Src)
+		if s.Dep == "" {
+			return false
+		}
+		dk := CKey{DepAccount, s.Dep}
+		sid, sok := start[dk]
+		cid, cok := shadow[dk]
+		if sok != cok || sid != cid {
+			if addedHere[dk] && a.Op == "add" && s.DepInit && o.Avoid["FK1"] && o.OnAvoid != nil {
+				o.OnAvoid("FK1")
+			}
+			return true
+		}
+	case "borrow":
+		if id, ok := shadow[k]; ok && m.src(k, id).Dep != "" && !m.healthy(k, shadow) {
+			return true
+		}
+	}
+	return false
 }
 
 // shadowApply tracks which source would be deployed after the action, assuming
@@ -884,14 +1047,14 @@ func (m *ContractModel) shadowApply(a CAction, shadow map[CKey]int, addedHere ma
 	k := CKey{a.Acct, a.Name}
 	switch a.Op {
 	case "add":
-		if _, ok := shadow[k]; !ok && m.src(k, a.Src).Valid {
+		if _, ok := shadow[k]; !ok && m.deployable(k, m.src(k, a.Src), shadow) {
 			shadow[k] = a.Src
 			if !m.src(k, a.Src).Iface {
 				addedHere[k] = true
 			}
 		}
 	case "update", "tryUpdate":
-		if cur, ok := shadow[k]; ok && UpdateAccepted(m.src(k, cur), m.src(k, a.Src)) {
+		if cur, ok := shadow[k]; ok && m.deployable(k, m.src(k, a.Src), shadow) && UpdateAccepted(m.src(k, cur), m.src(k, a.Src)) {
 			shadow[k] = a.Src
 		}
 	case "remove":
@@ -909,6 +1072,14 @@ func GenContractHistory(c Chooser, o ContractGenOptions) *ContractHistory {
 		o.MaxActions = 25
 	}
 	m := NewContractModel([]int{1, 2}, []string{"A", "B", "C"})
+	if o.Avoid["FK4"] {
+		m.DepsFirst = true
+		m.OnReorder = func() {
+			if o.OnAvoid != nil {
+				o.OnAvoid("FK4")
+			}
+		}
+	}
 	h := &ContractHistory{Accts: m.Accts, Names: m.Names}
 	total := 10 + c.Intn("actions", o.MaxActions-9)
 	goals := &genGoals{removed: map[CKey]bool{}}
@@ -931,15 +1102,12 @@ func GenContractHistory(c Chooser, o ContractGenOptions) *ContractHistory {
 				a, ok = m.genAction(c, &tx, shadow, start, addedHere, o)
 			}
 			n++
-			if !ok {
+			if !ok || m.orderDependent(a, shadow, start, addedHere, o) {
 				continue
 			}
 			lifecycle := a.Op == "add" || a.Op == "update" || a.Op == "tryUpdate" || a.Op == "remove"
 			k := CKey{a.Acct, a.Name}
-			callable := false
-			if id, was := start[k]; was && !m.src(k, id).Iface {
-				callable = true
-			}
+			callable := m.healthy(k, start)
 			// observe through the same account reference before and after every
 			// lifecycle call: names, names.length, get(name:) and a call of the contract
 			if lifecycle && Chance(c, "pre-observe", 1, 2) {
@@ -952,8 +1120,9 @@ func GenContractHistory(c Chooser, o ContractGenOptions) *ContractHistory {
 			tx.Actions = append(tx.Actions, a)
 			if lifecycle {
 				tx.Actions = append(tx.Actions, CAction{Op: "obs", Acct: a.Acct, Name: a.Name})
-				if !(o.Avoid["FK1"] && addedHere[k]) && Chance(c, "post-borrow", 1, 2) {
-					tx.Actions = append(tx.Actions, CAction{Op: "borrow", Acct: a.Acct, Name: a.Name})
+				if b := (CAction{Op: "borrow", Acct: a.Acct, Name: a.Name}); !(o.Avoid["FK1"] && addedHere[k]) &&
+					!m.orderDependent(b, shadow, start, addedHere, o) && Chance(c, "post-borrow", 1, 2) {
+					tx.Actions = append(tx.Actions, b)
 				}
 				if callable && Chance(c, "post-call", 2, 3) {
 					tx.Actions = append(tx.Actions, CAction{Op: []string{"version", "tag", "bump"}[c.Intn("which-call", 3)], Acct: a.Acct, Name: a.Name})
